@@ -13,6 +13,7 @@
 (*   add   cur := cur + n, or a panic (cur unchanged) for n > 2^31 - 1     *)
 (*   zonebump  the zone store's SOA serial bump on commit: cur := cur + 1  *)
 (*   place cur as a signature time placed next to a reference time         *)
+(*   text  cur := the field value read from a date / integer text          *)
 EXTENDS SerialLimbs, Sequences, TLC, Json, IOUtils
 
 Rec == ndJsonDeserialize(IOEnv.TRACE)
@@ -77,7 +78,15 @@ T_Place == /\ IsEv("place")
                  => Rec[l].t.era = LPlaceEra(Rec[l].era, Rec[l].r, cur)
            /\ UNCHANGED cur
 
-TNext == T_Set \/ T_Cmp \/ T_Add \/ T_ZoneBump \/ T_Place
+\* text entry points (FromStr, Timestamp::scan, zone-file reader; date form
+\* and integer form): the time era * 2^32 + v denotes the field value v
+\* (Serial!Denote), whatever the era; cur becomes the value read
+T_Text == /\ IsEv("text")
+          /\ IsLVal(Rec[l].v) /\ Rec[l].era \in 0 .. 3
+          /\ Rec[l].got = [ok |-> Rec[l].v]
+          /\ cur' = Rec[l].v
+
+TNext == T_Text \/ T_Set \/ T_Cmp \/ T_Add \/ T_ZoneBump \/ T_Place
 TSpec == TInit /\ [][TNext]_tvars
 
 TTypeOK == IsLVal(cur)
